@@ -224,16 +224,20 @@ CLAIMS.update({
     "C01": dict(
         technique="exact finite-Markov-chain oracles (lone vacancy; bound solute-vacancy pair with infinite dissociation "
                   "barriers) recomputed by TLC from exactly verified certificates (BigInt.tla, Check_C02.tla); tracer "
-                  "identities by Check_Rel.tla",
+                  "identities by Check_Rel.tla; periodic one-solute/one-vacancy chain specified in PairChain.tla "
+                  "(TLC: invariants, state graph = oracle's transitions), solved on three tori and "
+                  "Richardson-extrapolated (vf/chain.py), compared by Check_Rel.tla",
         text="Claimed for the exactly solvable sub-families: (i) L0vv = exact lone-vacancy diffusivity for any dyadic "
              "vacancy data (multi-Wyckoff, non-zero bias correction); (ii) bound-pair limit (every omega1 class leaving "
              "the thermodynamic shell has an infinite barrier; data given through preene2betafree with non-zero solute "
              "reference): Lss = Lsv = exact finite pair-chain value for random binding / omega1 / omega2 levels, "
-             "Nthermo 1-2; (iii) tracer limit. General interacting inputs with dissociation involve irrational "
-             "infinite-lattice sums and are constrained only relationally (C03-C10, C24-C26).",
+             "Nthermo 1-2; (iii) tracer limit; (iv) general interacting dyadic data with dissociation: Lss, Lsv and "
+             "L1vv against the extrapolated periodic pair chain (resolution 3e-4 / 3e-4 / 3e-3 of the largest "
+             "coefficient; unresolved cases are not judged) on Bravais, multi-site and polar worlds.",
         note="Trusts TLC, BigInt.tla; the bound-pair chain is built from the calculator's own omega1/omega2 networks "
              "(their correctness is C26). L1vv has no exact value in family (ii). Tolerances 2e-6 (Bravais) to 1e-4 "
-             "(origin states) reflect the default k-mesh.",
+             "(origin states) reflect the default k-mesh. Family (iv) is a numerical oracle (floating-point solve of "
+             "a TLC-verified chain structure), not an exact one.",
         design="4/C01"),
     "C10": dict(
         technique="lattice diffusion equation as an integer-linear form in recorded Green-function values (dyadic "
